@@ -267,3 +267,25 @@ def check_tls_outlives_user_fn(ck, prog, rule):
         early = [fb for fb in frees if not c.cfg.dominates(user[0], fb) or user[0] in c.cfg.reachable_from(fb)]
         ck.ob(rule, "tls-block-freed-only-after-the-user-function-returned", not early, fn=CLOSURE, site=c.site(early[0]) if early else None,
               detail="the thread frees its thread-local block before (or around) the call of the user's function: if that function panics, the panic handler reads the freed block to find the stack and the join block and frees it a second time")
+
+
+def check_clear_tid_reset(ck, prog, rule):
+    """on the thread side SET_TID_ADDRESS(0) precedes the free of the join block: otherwise the exiting thread's kernel-side clear-tid
+    write (0 + futex wake) lands in freed memory - which by then may be ANOTHER thread's join block, whose exit word then reads
+    "finished" while that thread still runs (its join returns early).  Shared by C06.2 and C05.5."""
+    from ..engine.cfg import is_raw_syscall
+    from .futexflavour import nr_name
+    dealloc = TSM + "dealloc"
+    for p in (CLOSURE, PANIC):
+        fn = prog.fns.get(p)
+        if not ck.anchor(rule, p, fn):
+            continue
+        c = prog.ctx(fn)
+        tid = []
+        for bb, t in c.cfg.calls(lambda t: is_raw_syscall(t.get("callee"))):
+            a = c.args(bb)
+            if a and nr_name(a[0]) == "SET_TID_ADDRESS":
+                tid.append((bb, fold(a[1]) if len(a) > 1 else None))
+        ds = call_blocks(c, dealloc)
+        ok = bool(ds) and all(any(c.cfg.dominates(tb, d) and tb != d and v == 0 for tb, v in tid) for d in ds)
+        ck.ob(rule, f"clear-tid-reset-before-free|{p}", ok, fn=p, detail="on the thread side SET_TID_ADDRESS(0) must precede freeing the block: otherwise the kernel writes 0 into (and futex-wakes) freed memory when the thread exits")
